@@ -530,6 +530,8 @@ class Frame:
                     env.minlen[ln] = max(env.minlen.get(ln, 0), k)
                 elif o is ast.Gt:
                     env.minlen[ln] = max(env.minlen.get(ln, 0), k + 1)
+                elif o is ast.NotEq and env.minlen.get(ln, 0) == k:
+                    env.minlen[ln] = k + 1          # at least k and not k
                 return env
             if isinstance(op, (ast.In, ast.NotIn)):
                 if isinstance(op, ast.In) == truth:
